@@ -6,6 +6,7 @@ object_name form, every qubit-id permutation; each entry is checked on the real 
 references written from the textbook definitions in this file (never by calling the same quara function twice).
 cert_items(): matrices for the Lean certificate checkers (correspondence is filled in by the property owner)."""
 import ctypes
+from fractions import Fraction
 import itertools
 import math
 import multiprocessing
@@ -1646,9 +1647,22 @@ def check_other_basis():
             o = r.call(f"generate_povm_from_name@{system}", PT.generate_povm_from_name, nm, c)
             if o is not None:
                 _listsame(r, "other-basis/povm", f"generate_povm_from_name({nm!r})@{system}", [mat_of(B, v) for v in o.vecs], ref_povm(nm, system)[0], TOL, "elements through the system's basis vs textbook")
-        # (the catalogue GATE / Lindbladian generators are written for the default bases only: their matrix forms are in the
-        #  normalised Pauli / Gell-Mann basis by definition and generate_gate_from_gate_name does not convert to c_sys.basis();
-        #  systems with other bases are outside the catalogue's listed configurations and are not probed for them)
+        # catalogue gates / Lindbladians on a system with a non-default basis (known finding D17g: the generators do not
+        # convert their Pauli / Gell-Mann-basis matrix to c_sys.basis(); separate signatures so that the states, POVMs and
+        # legacy constructors above / below keep their own)
+        for s_, nm, ids in gate_catalogue_small():
+            if s_ != system:
+                continue
+            try:
+                o = GT.generate_gate_from_gate_name(nm, c, ids)
+                r.same("other-basis/gate", f"generate_gate_from_gate_name({nm!r}, ids={ids})@{system}", o.hs, hs_of_unitary(B, ref_unitary(nm, system, ids)), TOL, "hs in the system's basis vs HS matrix of the textbook unitary")
+            except Exception as e:  # noqa
+                r.fail("other-basis/gate-raises", f"generate_gate_from_gate_name({nm!r}, ids={ids})@{system}", f"{type(e).__name__}: {e}")
+            try:
+                l_ = LT.generate_effective_lindbladian_from_gate_name(nm, c, ids)
+                r.same("other-basis/lindbladian", f"generate_effective_lindbladian_from_gate_name({nm!r}, ids={ids})@{system}", sla.expm(np.asarray(l_.hs, dtype=float)), hs_of_unitary(B, ref_unitary(nm, system, ids)), TOL, "expm(L) in the system's basis vs HS matrix of the textbook unitary")
+            except Exception as e:  # noqa
+                r.fail("other-basis/lindbladian-raises", f"generate_effective_lindbladian_from_gate_name({nm!r}, ids={ids})@{system}", f"{type(e).__name__}: {e}")
     # legacy named constructors on the rotated systems
     c1, B1 = rotated_csys("1qubit")
     c2, B2 = rotated_csys("2qubit")
@@ -2640,6 +2654,32 @@ def correspondence(ctx):
                 k += 1
                 pend.append(("hsunitary", label + "/neg-control", False,
                              drv.ask("hsunitary", d, bs, _pc(gd["u"]), _pr(gd["hs"].T + 1e-6 * np.eye(d * d)[::-1]), eps)))
+    # alternative descriptions on the model's executed definitions: state vector -> density -> coefficient vector (all
+    # 1-qubit / 1-qutrit catalogue states) and Kraus set -> HS matrix (every outcome of every catalogue m-process)
+    forms = []
+    for system in ("1qubit", "1qutrit"):
+        c = csys(system)
+        Bq = [np.asarray(dense(b), dtype=complex) for b in c.basis()]
+        d_ = Bq[0].shape[0]
+        bs_ = qlist(x for b in Bq for z in b.flatten() for x in (z.real, z.imag))
+        for nm in dict(state_catalogue())[system]:
+            psi = np.asarray(ST.generate_state_pure_state_vector_from_name(nm), dtype=complex).flatten()
+            rho = np.asarray(dense(ST.generate_state_density_mat_from_name(nm)), dtype=complex)
+            vec = np.asarray(ST.generate_state_density_matrix_vector_from_name(c.basis(), nm), dtype=float)
+            forms.append(("stateforms", f"{system}/{nm}", (rho, vec), drv.ask("stateforms", d_, bs_, _pc(psi)), d_))
+            ctx.count(f"descriptions state {system}")
+    for nm in mprocess_names():
+        system = ref_mprocess(nm)[0]
+        c = csys(system)
+        Bq = [np.asarray(dense(b), dtype=complex) for b in c.basis()]
+        d_ = Bq[0].shape[0]
+        bs_ = qlist(x for b in Bq for z in b.flatten() for x in (z.real, z.imag))
+        ksets = MT.generate_mprocess_set_kraus_matrices_from_name(nm)
+        hss = MT.generate_mprocess_hss_from_name(nm, c)
+        for x, (ks, hs_) in enumerate(zip(ksets, hss)):
+            forms.append(("hsofkraus", f"{system}/{nm}/{x}", np.asarray(dense(hs_), dtype=float),
+                          drv.ask("hsofkraus", d_, bs_, _pc(np.array([np.asarray(k, dtype=complex) for k in ks]))), d_))
+            ctx.count(f"descriptions mprocess {system}")
     # generated name tables (QGen/C17.lean, translated from the source on this run) against the real functions
     tabs = []
     mods = {"state_typical.py": ST, "povm_typical.py": PT, "gate_typical.py": GT, "mprocess_typical.py": MT,
@@ -2656,6 +2696,22 @@ def correspondence(ctx):
             valid.append((nm, bool(ST.is_valid_state_name(nm)), drv.ask("isvalid", ",".join(str(ord(ch)) for ch in nm) or "-")))
     ctx.count("generated is_valid_state_name probes", len(valid))
     out = drv.run(timeout=1500)
+    def _cm(tok, shape):
+        v = [float(Fraction(t)) for t in ([] if tok == "-" else tok.split(","))]
+        return (np.array(v[0::2]) + 1j * np.array(v[1::2])).reshape(shape)
+    for op, label, impl, i, d_ in forms:
+        ctx.corr_ops.add(op)
+        ctx.case((op, label), nontrivial=True, sample={"op": op, "entry": label})
+        t = out[i].split()
+        okf = t[0] == "ok"
+        if okf and op == "stateforms":
+            rho_m, vec_m, rho2_m = _cm(t[1], (d_, d_)), _cm(t[2], (d_ * d_,)), _cm(t[3], (d_, d_))
+            okf = np.abs(rho_m - impl[0]).max() < 1e-9 and np.abs(vec_m - impl[1]).max() < 1e-9 and np.abs(rho2_m - impl[0]).max() < 1e-9
+        elif okf:
+            hs_m = _cm(t[1], (d_ * d_, d_ * d_))
+            okf = np.abs(hs_m - impl).max() < 1e-9
+        if not okf:
+            ctx.disagree(op, label, "implementation forms", out[i][:200])
     for f, impl, i in tabs:
         ctx.corr_ops.add("names")
         ctx.case(("names", f), nontrivial=True)
